@@ -105,10 +105,8 @@ def make_plan(prop, root_seed, i, tier):
     return json.loads(json.dumps(plan))
 
 
-_PACKAGE_CALL_SITES = frozenset([
-    ("listing", "ops.py"), ("structural", "common.py"),
-    ("_setstate", "world.py"), ("serialize", "world.py"),
-])
+# exception classes that only a mistake in the harness's own code produces
+_HARNESS_ONLY = (NameError, ImportError, SyntaxError, RecursionError)
 
 
 def execute(prop, plan, variant="plain", trace=False):
@@ -137,19 +135,29 @@ def execute(prop, plan, variant="plain", trace=False):
         for fs in frames:
             if "/BTrees/" in fs.filename.replace("\\", "/"):
                 where = fs.name
-        if where is None and frames:
-            # the C extension has no Python frames: an exception that comes
-            # out of one of the harness's thin call sites into the package
-            # (full listing, _check()/check(), the state walker, the stub
-            # connection's __setstate__/__getstate__ calls) is the package's
-            # too; SystemError is never the harness's doing
-            last = frames[-1]
-            fn = last.filename.replace("\\", "/")
-            if fn.endswith("/sim/walker.py") or (last.name, fn.rsplit(
-                    "/", 1)[-1]) in _PACKAGE_CALL_SITES:
-                where = "c-call:" + last.name
-            elif isinstance(e, SystemError):
-                where = "c-call:SystemError"
+        if where is None and frames and not isinstance(e, _HARNESS_ONLY):
+            # The C extension has no Python frames.  An exception that was
+            # not raised by a `raise` statement of the harness itself came
+            # out of a call the harness made -- on the unchanged tree no
+            # scenario lets one escape, so on a changed tree it is the
+            # package's doing (an unexpected SystemError / AssertionError /
+            # TypeError of an operation, a checker, a state call).  What the
+            # harness raises on purpose (unknown op, broken plan) stays a
+            # harness error.
+            tb = e.__traceback__
+            while tb.tb_next is not None:
+                tb = tb.tb_next
+            import dis
+            opname = None
+            try:
+                for ins in dis.get_instructions(tb.tb_frame.f_code):
+                    if ins.offset == tb.tb_lasti:
+                        opname = ins.opname
+                        break
+            except Exception:
+                pass
+            if opname not in ("RAISE_VARARGS", "RERAISE"):
+                where = "c-call:" + frames[-1].name
         if where is None or isinstance(e, (MemoryError, RecursionError)):
             raise
         res["violation"] = {
